@@ -446,7 +446,17 @@ def shape_of(v):
     return "scalar"
 
 
-def gen_text_comp(rng, pal, role, want, elements, lines=None, allow_table=None):
+def draw_border_colors(rng, pal, kw, bcols, p=0.3):
+    """border colours of a table component other than the body (footnote, source, column header): collected and
+    printed as \\brdrcf like the body's (repo fix of collect_document_colors)"""
+    if bcols is None or rng.random() >= p:
+        return
+    for f in rng.sample(BORDER_FIELDS, rng.randint(1, 3)):
+        kw[f] = pal.one(blank=0.1)
+        bcols.append(kw[f])
+
+
+def gen_text_comp(rng, pal, role, want, elements, lines=None, allow_table=None, bcols=None):
     n = lines if lines is not None else rng.choice([1, 1, 2, 3])
     tag = {"title": "TT", "subline": "SL", "footnote": "FN", "source": "SR", "page_header": "PH", "page_footer": "PF"}[role]
     font = lambda: rng.randint(1, 10)  # noqa: E731
@@ -462,6 +472,7 @@ def gen_text_comp(rng, pal, role, want, elements, lines=None, allow_table=None):
                 kw[k] = v
         want[sent] = [tc or "", bg or "", ft or 1]
         elements.append([sent, role, 0, 0, 0])
+        draw_border_colors(rng, pal, kw, bcols)
         return kw
     sents = [f"{tag}{i}z" for i in range(n)]
     kw = dict(text=sents if n > 1 or rng.random() < 0.5 else sents[0])
@@ -504,7 +515,7 @@ def gen_body(rng, pal, sec, nr, nc, want, elements, rowwise, counts):
     return kw, rows, bcols
 
 
-def gen_header(rng, pal, sec, k, nc, want, elements):
+def gen_header(rng, pal, sec, k, nc, want, elements, bcols=None):
     font = lambda: rng.randint(1, 10)  # noqa: E731
     sents = [f"h{sec}k{k}c{j}z" for j in range(nc)]
     tc = table_attr(rng, pal.one, 1, nc, rowwise=False)
@@ -517,6 +528,7 @@ def gen_header(rng, pal, sec, k, nc, want, elements):
     for j, s in enumerate(sents):
         want[s] = [pick(tc, 0, j, False) or "", pick(bg, 0, j, False) or "", pick(ft, 0, j, False) or 1]
         elements.append([s, "header", (sec, k), 0, j])
+    draw_border_colors(rng, pal, kw, bcols)
     return kw
 
 
@@ -538,7 +550,7 @@ def gen_doc(rng, names, groups):
                                      for i in range(nfig)], fig_width=1.0, fig_height=1.0, _as_list=True)
         for role in ("footnote", "source"):
             if rng.random() < 0.6:
-                spec[role] = gen_text_comp(rng, pal, role, want, elements, allow_table=False)
+                spec[role] = gen_text_comp(rng, pal, role, want, elements, allow_table=False, bcols=border_cols)
         spec["page"] = dict(page_title=rng.choice(["all", "first", "last"]),
                             page_footnote=rng.choice(["all", "first", "last"]),
                             page_source=rng.choice(["all", "first", "last"]))
@@ -547,7 +559,7 @@ def gen_doc(rng, names, groups):
         return dict(kind=kind, spec=spec, want=want, elements=elements, counts=counts, border_cols=border_cols, k=k)
     for role in ("footnote", "source"):
         if rng.random() < 0.5:
-            spec[role] = gen_text_comp(rng, pal, role, want, elements)
+            spec[role] = gen_text_comp(rng, pal, role, want, elements, bcols=border_cols)
     if kind == "multi":
         nsec = rng.randint(2, 4)
         nc = rng.randint(1, 3)
@@ -563,11 +575,11 @@ def gen_doc(rng, names, groups):
             spec["df"].append(dict(cols=[f"c{j}" for j in range(nc)], rows=rows))
             spec["body"].append(kw)
             if nested:
-                hdrs.append([gen_header(rng, spal, s, 0, nc, want, elements)] if rng.random() < 0.8 else [None])
+                hdrs.append([gen_header(rng, spal, s, 0, nc, want, elements, border_cols)] if rng.random() < 0.8 else [None])
         if nested:
             spec["headers"] = hdrs
         elif rng.random() < 0.7:
-            spec["headers"] = [gen_header(rng, pal, 0, 0, nc, want, elements)]
+            spec["headers"] = [gen_header(rng, pal, 0, 0, nc, want, elements, border_cols)]
         else:
             spec["headers"] = []
         return dict(kind=kind, spec=spec, want=want, elements=elements, counts=counts, border_cols=border_cols, k=k)
@@ -608,9 +620,9 @@ def gen_doc(rng, names, groups):
     spec["body"] = kw
     r = rng.random()
     if r < 0.5:
-        spec["headers"] = [gen_header(rng, pal, 0, 0, nc, want, elements)]
+        spec["headers"] = [gen_header(rng, pal, 0, 0, nc, want, elements, border_cols)]
     elif r < 0.7:
-        spec["headers"] = [gen_header(rng, pal, 0, 0, 1, want, elements), gen_header(rng, pal, 0, 1, nc, want, elements)]
+        spec["headers"] = [gen_header(rng, pal, 0, 0, 1, want, elements, border_cols), gen_header(rng, pal, 0, 1, nc, want, elements, border_cols)]
         spec["headers"][0]["col_rel_width"] = [1]
     elif r < 0.8:
         spec["headers"] = []
@@ -628,7 +640,7 @@ def _dump_doc(doc):
         c = getattr(doc, ROLE_ATTR[role])
         if c:
             index[role] = len(out["texts"])
-            out["texts"].append(comp_json(c))
+            out["texts"].append(comp_json(c, borders=True))
     hmap = {}
     hs = doc.rtf_column_header
     if hs:
@@ -637,12 +649,12 @@ def _dump_doc(doc):
                 for k, h in enumerate(sec):
                     if h:
                         hmap[f"{s},{k}"] = len(out["headers"])
-                        out["headers"].append(comp_json(h))
+                        out["headers"].append(comp_json(h, borders=True))
         else:
             for k, h in enumerate(hs):
                 if h:
                     hmap[f"0,{k}"] = len(out["headers"])
-                    out["headers"].append(comp_json(h))
+                    out["headers"].append(comp_json(h, borders=True))
     return out, index, hmap
 
 
@@ -820,10 +832,12 @@ def judge_doc(res, case, ob, m, o, bk, rgbs_of):
             why.append("a non-default colour is used but the document has no colour table")
         res.fail(case, "references do not resolve: " + "; ".join(why) + f" (table {ob['entries'][:10]})")
         return
-    # border colours: if a \brdrcf is printed it must point to an entry with the RGB of a requested border colour
-    allowed = {tuple(rgbs_of[c]) for c in case["border_cols"] if c in rgbs_of}
+    # border colours (body, footnote, source, column headers -- all collected since the repo fix): every \brdrcf that is
+    # printed points to an entry with the RGB of a requested border colour; index 0 only for a requested "black"
+    allowed = {tuple(rgbs_of[c]) for c in case["border_cols"] if c in rgbs_of and c not in ("", "black")}
     for v in ob["borders"]:
-        ok = v == 0 or (0 < v < len(ob["entries"]) and ob["entries"][v] is not None and tuple(ob["entries"][v]) in allowed)
+        ok = ((v == 0 and "black" in case["border_cols"])
+              or (0 < v < len(ob["entries"]) and ob["entries"][v] is not None and tuple(ob["entries"][v]) in allowed))
         if not ok:
             res.fail(case, f"\\brdrcf{v} does not resolve to a requested border colour (table {ob['entries'][:10]})")
             return
